@@ -161,11 +161,11 @@ def handleC12 : List String → Option String
     let vs ← decList sys pName l
     some (outList sys pName (sortVersions vs))
   | ["classify", sy, l] => do
-    -- the decidable hypotheses of the partial theorems (finding classifiers)
+    -- the decidable hypothesis of the partial theorems (finding classifier)
     let sys ← RSystem.ofWire sy
     let vs ← decList sys pName l
     let b (x : Bool) : String := if x then "1" else "0"
-    some s!"ok lawful={b (orderLawfulB sys.semver vs)} tagsexact={b (tagsExactB vs)}"
+    some s!"ok lawful={b (orderLawfulB sys.semver vs)}"
   | _ => none
 
 def handleC14 : List String → Option String
